@@ -1,4 +1,9 @@
 #pragma once
+// objects handed to init functions and output parameters are pre-filled with this byte: an init function must not depend
+// on what the object held before, and a successful call must write every field of its result
+#ifndef SBH_FILL
+#define SBH_FILL 0xA5
+#endif
 #include <cstdint>
 #include <cstdio>
 #include <cstdlib>
